@@ -168,6 +168,19 @@ func genC03(seed uint64, run int, tier string) Scenario {
 		}
 		op.B = "<config><pad>" + strings.Repeat("p", target-base) + "</pad></config>"
 		sc.Ops = append(sc.Ops, op)
+		if r.IntN(2) == 0 {
+			// the server refuses the big request
+			sc.Server.Replies = append(sc.Server.Replies, peer.NCReply{Mode: "now", Payload: `<rpc-reply xmlns="urn:ietf:params:xml:ns:netconf:base:1.0" message-id="{MID}"><rpc-error><error-type>application</error-type><error-tag>too-big</error-tag><error-severity>error</error-severity></rpc-error></rpc-reply>`})
+		}
+	}
+	if r.IntN(4) == 0 {
+		// a request of a few kilobytes (not on any boundary) that the server refuses
+		op := NCOp{Kind: "editconfig", A: pick(r, datastores...), B: "<config><blob>" + word(r, lower+digits+" ", 1900, 5000) + "</blob></config>"}
+		for len(sc.Server.Replies) < len(sc.Ops) {
+			sc.Server.Replies = append(sc.Server.Replies, peer.NCReply{Mode: "now", Payload: `<rpc-reply xmlns="urn:ietf:params:xml:ns:netconf:base:1.0" message-id="{MID}"><ok/></rpc-reply>`})
+		}
+		sc.Ops = append(sc.Ops, op)
+		sc.Server.Replies = append(sc.Server.Replies, peer.NCReply{Mode: "now", Payload: `<rpc-reply xmlns="urn:ietf:params:xml:ns:netconf:base:1.0" message-id="{MID}"><rpc-error><error-type>application</error-type><error-tag>operation-failed</error-tag><error-severity>error</error-severity></rpc-error></rpc-reply>`})
 	}
 	sc.Ops = append(sc.Ops, NCOp{Kind: "close"})
 	sc.Class = "encode/" + ver
